@@ -27,11 +27,11 @@ BAND = 1e-9
 MAX_PER_SLUG = 2
 
 LOCAL_KINDS = ["Grid1D", "Grid2D", "Grid3D", "OneDGrid", "OneDRule", "AtomGrid-origin", "AtomGrid-offcentre", "AtomGrid-r0shell",
-               "MolGrid", "Tensor1DGrids2D", "Tensor1DGrids3D", "UniformGrid2D", "UniformGrid3D", "PeriodicGrid2D-novec",
+               "MolGrid", "Tensor1DGrids2D", "Tensor1DGrids3D", "UniformGrid2D", "UniformGrid3D", "PeriodicGrid1D-novec", "PeriodicGrid2D-novec",
                "PeriodicGrid3D-novec", "AngularGrid", "LocalGrid", "GridSubclass3D"]
 LATTICE_KINDS = ["Grid1D", "Grid2D", "Grid3D", "OneDGrid", "Tensor1DGrids2D", "Tensor1DGrids3D", "UniformGrid2D", "UniformGrid3D",
-                 "PeriodicGrid3D-novec"]
-GETITEM_KINDS = ["Grid1D", "Grid2D", "Grid3D", "OneDGrid", "OneDGrid-nodomain", "OneDRule", "PeriodicGrid2D-novec", "PeriodicGrid3D-novec",
+                 "PeriodicGrid1D-novec", "PeriodicGrid3D-novec"]
+GETITEM_KINDS = ["Grid1D", "Grid2D", "Grid3D", "OneDGrid", "OneDGrid-nodomain", "OneDRule", "PeriodicGrid1D-novec", "PeriodicGrid2D-novec", "PeriodicGrid3D-novec",
                  "PeriodicGrid1D-vec", "PeriodicGrid2D-vec", "PeriodicGrid3D-vec", "PeriodicGrid3D-wrap", "GridSubclass1D", "GridSubclass3D",
                  "PeriodicGrid2D-subclass"]
 
@@ -141,6 +141,8 @@ def build(kind, g, lattice=False):
             return Bundle(kind, PeriodicSubGrid(g.uniform(0.0, 1.0, (n, 2)) @ vecs, g.uniform(0.1, 1.0, n), vecs), extra=(vecs,))
         if kind.endswith("novec"):
             pts = _cloud(g, n, dim, lattice)
+            if dim == 1:
+                pts = pts.reshape(-1)
             return Bundle(kind, PeriodicGrid(pts, g.uniform(0.1, 1.0, len(pts))), extra=(None,))
         nvec = 1 if dim == 1 else int(g.integers(1, dim + 1))
         if dim == 1:
